@@ -319,7 +319,9 @@ fn backup_and_report(
         s.push(' ');
         s.push_str(e);
     }
-    s.push_str(&format!(" Z written={written} unindexed_refs={unindexed}"));
+    let index_writes = log.iter().filter(|o| o.kind == OpKind::Write && o.tpe == FileType::Index).count();
+    let removes = log.iter().filter(|o| o.kind == OpKind::Remove).count();
+    s.push_str(&format!(" Z written={written} unindexed_refs={unindexed} index_writes={index_writes} removes={removes}"));
     w.last_trees = trees;
     Ok(s)
 }
